@@ -10,6 +10,7 @@ mod json;
 mod kernels;
 mod sched;
 mod lfu;
+mod ack;
 
 use std::env;
 
@@ -23,6 +24,7 @@ fn main() {
         "kernels" => kernels::run(),
         "run" => sched::run_file(&args[2]),
         "lfu" => lfu::run_file(&args[2]),
+        "ack" => ack::run_file(&args[2]),
         other => {
             eprintln!("unknown sub-command {}", other);
             std::process::exit(2);
